@@ -1,11 +1,10 @@
 (* C02 — exposure gate of the Pyro5 daemon (Pyro5/server.py: expose, _get_attribute,
-   _get_exposed_property_value, _set_exposed_property_value, _get_exposed_members and the
-   dispatch branches of Daemon.handleRequest).  Definitions only.
+   _get_exposed_property_value, _set_exposed_property_value, _get_exposed_members with its per-class
+   cache, and the dispatch branches of Daemon.handleRequest).  Definitions only.
 
-   A class shape describes the registered object: an instance of Sub(Base), each class with or
-   without a class-level @expose, and a list of members.  The privacy predicate is a parameter;
-   Props/C02.v and Harness/H02.v instantiate it with the function generated from the source
-   (Gen/GenServer.v). *)
+   A class shape describes one registered class: Sub(Base), each class with or without a class-level
+   @expose, and a list of members.  The privacy predicate is a parameter; Props/C02.v and
+   Harness/H02.v instantiate it with the function generated from the source (Gen/GenServer.v). *)
 From Coq Require Import List NArith Arith Bool.
 Import ListNotations.
 From V Require Import Model.StrFun.
@@ -14,36 +13,50 @@ Inductive cls := Base | Sub.
 Definition cls_eqb (a b : cls) : bool :=
   match a, b with Base, Base | Sub, Sub => true | _, _ => false end.
 
+Inductive hook := HGetattr | HGetattribute.     (* the class's own __getattr__ / __getattribute__ *)
+
 Inductive kind :=
 | KMethod | KStatic | KClassM           (* function / staticmethod / classmethod in a class body *)
-| KProp (has_get has_set : bool)        (* property object; with neither accessor it only has a deleter *)
+| KProp (g st d : option bool)          (* property object: per accessor (getter, setter, deleter) None = absent,
+                                           Some b = present, b = @expose applied to that accessor *function* *)
 | KClassAttr                            (* plain class attribute (a number) *)
 | KInstAttr                             (* plain instance attribute (a number) *)
-| KHelper (helper_class_exposed : bool). (* non-callable helper object stored in an instance attribute;
-                                            its class has exposed methods of its own and may carry @expose *)
+| KHelper (class_exposed callable : bool)
+                                        (* helper object stored in an instance attribute; its class has exposed methods
+                                           of its own, may carry @expose (directly or inherited) and may define __call__ *)
+| KHook (h : hook).                     (* attribute hook defined in a class body; as a function it is like KMethod *)
 
 Record member := {
   m_id : nat;          (* position in the shape, used to compare with the implementation's side-effect log *)
   m_name : text;       (* attribute name it is bound to *)
   m_kind : kind;
   m_in : cls;          (* class body it is defined in (ignored for instance attributes) *)
-  m_mark : bool;       (* @expose was applied to this very function / property object *)
-  m_fname : text;      (* __name__ of the function (differs from m_name when bound under another name) *)
+  m_mark : bool;       (* @expose was applied to this very function / to the property object *)
+  m_fname : text;      (* __name__ of the function(s) (differs from m_name when bound under another name) *)
   m_oneway : bool      (* @oneway applied *)
 }.
 
 Record shape := { s_base_exposed : bool; s_sub_exposed : bool; s_members : list member }.
 
-(* the two known deviations of the code from the property, as switches (false = repaired behaviour) *)
+(* deviations of the code from the property, as switches (false = the property's behaviour) *)
 Record quirks := {
-  q_call_runs_getter : bool;        (* _get_attribute does getattr(obj, name) on a property: the getter runs, then the value is refused *)
-  q_attr_private_unchecked : bool   (* __getattr__/__setattr__ requests do not apply the privacy test *)
+  q_call_runs_getter : bool;        (* fixed in 88fe348: _get_attribute did getattr(obj, name) on a property *)
+  q_attr_private_unchecked : bool;  (* fixed: __getattr__/__setattr__ requests skipped the privacy test *)
+  q_helper_served : bool;           (* open: a callable instance of an @expose'd class stored in an attribute is called *)
+  q_hooks_run : bool                (* open: getattr on the instance runs the class's __getattribute__/__getattr__ hooks *)
 }.
-Definition quirks_none := {| q_call_runs_getter := false; q_attr_private_unchecked := false |}.
+Definition quirks_none :=
+  {| q_call_runs_getter := false; q_attr_private_unchecked := false; q_helper_served := false; q_hooks_run := false |}.
+(* the code as it is today (after the two repairs) *)
+Definition quirks_asis :=
+  {| q_call_runs_getter := false; q_attr_private_unchecked := false; q_helper_served := true; q_hooks_run := true |}.
 
-Inductive acc := ACall | AGet | ASet.
+Inductive acc := ACall | AGet | ASet | AHelper | AHook.
 Definition acc_eqb (a b : acc) : bool :=
-  match a, b with ACall, ACall | AGet, AGet | ASet, ASet => true | _, _ => false end.
+  match a, b with
+  | ACall, ACall | AGet, AGet | ASet, ASet | AHelper, AHelper | AHook, AHook => true
+  | _, _ => false
+  end.
 Definition effect := (member * acc)%type.
 
 Inductive reqname := NStr (t : text) | NOther.    (* NOther: any value that is not a string *)
@@ -53,11 +66,13 @@ Inductive reply := RepResult | RepError | RepNone.
 
 (* ---------- Python attribute resolution on the instance / on its class ---------- *)
 Definition is_class_member (m : member) : bool :=
-  match m_kind m with KInstAttr | KHelper _ => false | _ => true end.
-Definition is_prop (m : member) : bool := match m_kind m with KProp _ _ => true | _ => false end.
+  match m_kind m with KInstAttr | KHelper _ _ => false | _ => true end.
+Definition is_prop (m : member) : bool := match m_kind m with KProp _ _ _ => true | _ => false end.
 Definition is_method (m : member) : bool :=
-  match m_kind m with KMethod | KStatic | KClassM => true | _ => false end.
+  match m_kind m with KMethod | KStatic | KClassM | KHook _ => true | _ => false end.
 Definition markable (m : member) : bool := is_method m || is_prop m.
+Definition present (o : option bool) : bool := match o with Some _ => true | None => false end.
+Definition marked_acc (o : option bool) : bool := match o with Some b => b | None => false end.
 
 Definition in_class (c : cls) (n : text) (m : member) : bool :=
   is_class_member m && cls_eqb (m_in m) c && text_eqb (m_name m) n.
@@ -75,6 +90,21 @@ Definition inst_lookup (s : shape) (n : text) : option member :=
               else match inst_attr s n with Some a => Some a | None => Some m end
   | None => inst_attr s n
   end.
+(* the class's attribute hook of a given sort, through the MRO *)
+Definition is_hook (h : hook) (m : member) : bool :=
+  match m_kind m, h with KHook HGetattr, HGetattr | KHook HGetattribute, HGetattribute => true | _, _ => false end.
+Definition find_hook (s : shape) (h : hook) : option member :=
+  match find (fun m => is_hook h m && cls_eqb (m_in m) Sub) (s_members s) with
+  | Some m => Some m
+  | None => find (fun m => is_hook h m && cls_eqb (m_in m) Base) (s_members s)
+  end.
+Definition hook_effect (q : quirks) (s : shape) (h : hook) : list effect :=
+  if q_hooks_run q then match find_hook s h with Some m => [(m, AHook)] | None => [] end else [].
+
+(* attributes every instance has without any class body defining them and that Pyro5 does not reserve: __dict__, __doc__
+   (plain values: found by getattr, so __getattr__ is not consulted; never exposed) *)
+Definition implicit_attrs : list text :=
+  [[95;95;100;105;99;116;95;95]%N; [95;95;100;111;99;95;95]%N].
 
 Section Gate.
 Variable is_private : text -> bool.
@@ -82,29 +112,52 @@ Variable is_private : text -> bool.
 (* ---------- decoration time: which function objects carry _pyroExposed ---------- *)
 Definition cls_flag (s : shape) (c : cls) : bool :=
   match c with Base => s_base_exposed s | Sub => s_sub_exposed s end.
-(* @expose on a function/property refuses private __name__s (raises; the member stays unmarked) *)
-Definition own_mark_ok (m : member) : bool := m_mark m && negb (is_private (m_fname m)).
-Definition own_mark_refused (m : member) : bool := markable m && m_mark m && is_private (m_fname m).
-(* class-level @expose marks only the class's own non-private functions and property accessors *)
+(* the accessor whose mark decides for a property: fget or fset or fdel *)
+Definition first_acc (g st d : option bool) : option bool :=
+  match g with Some b => Some b | None => match st with Some b => Some b | None => d end end.
+(* some own @expose was requested on the member: on the function / property object / an accessor function *)
+Definition own_requested (m : member) : bool :=
+  m_mark m || match m_kind m with KProp g st d => marked_acc g || marked_acc st || marked_acc d | _ => false end.
+(* @expose on a function/property refuses private __name__s (raises; nothing gets marked) *)
+Definition own_ok (m : member) : bool := negb (is_private (m_fname m)).
+Definition own_mark_refused (m : member) : bool := markable m && own_requested m && is_private (m_fname m).
+(* the own mark that counts: on the function itself; for a property on its first accessor — put there
+   directly, or by @expose on the property object (which marks the first accessor only) *)
+Definition own_decisive (m : member) : bool :=
+  match m_kind m with
+  | KProp g st d => match first_acc g st d with Some b => b || m_mark m | None => false end
+  | _ => m_mark m
+  end.
+(* class-level @expose marks the class's own non-private functions and all accessors of its own properties *)
+Definition class_marked (s : shape) (m : member) : bool :=
+  cls_flag s (m_in m) && negb (is_private (m_name m)) &&
+  match m_kind m with KProp g st d => present (first_acc g st d) | _ => true end.
 Definition exposed (s : shape) (m : member) : bool :=
-  markable m && (own_mark_ok m || (cls_flag s (m_in m) && negb (is_private (m_name m)))).
+  markable m && ((own_decisive m && own_ok m) || class_marked s m).
 
 (* ---------- _get_attribute ---------- *)
-Inductive resolved := ResRefused | ResMethod (m : member) | ResNotCallable.
+Inductive resolved := ResRefused | ResMethod (m : member) | ResHelper (m : member) | ResNotCallable.
 
 Definition get_attribute (q : quirks) (s : shape) (n : reqname) : list effect * resolved :=
   match n with
   | NOther => ([], ResRefused)
   | NStr t =>
     if is_private t then ([], ResRefused) else
+    (* repaired code: a data descriptor of the class is refused before the instance is touched *)
+    if negb (q_call_runs_getter q) && match class_lookup s t with Some m => is_prop m | None => false end
+    then ([], ResRefused) else
+    (* getattr(obj, t): __getattribute__ runs first; __getattr__ when the normal lookup fails *)
+    let e1 := hook_effect q s HGetattribute in
     match inst_lookup s t with
-    | None => ([], ResRefused)
+    | None => (e1 ++ (if t_mem t implicit_attrs then [] else hook_effect q s HGetattr), ResRefused)
     | Some m =>
       match m_kind m with
-      | KProp g _ => (if q_call_runs_getter q && g then [(m, AGet)] else [], ResRefused)
-      | KMethod | KStatic | KClassM => ([], if exposed s m then ResMethod m else ResRefused)
-      | KHelper ce => ([], if ce then ResNotCallable else ResRefused)
-      | KClassAttr | KInstAttr => ([], ResRefused)
+      | KProp g _ _ => (e1 ++ (if q_call_runs_getter q && present g then [(m, AGet)] else []), ResRefused)
+      | KMethod | KStatic | KClassM | KHook _ => (e1, if exposed s m then ResMethod m else ResRefused)
+      | KHelper ce callable =>
+          (e1, if ce then (if callable then (if q_helper_served q then ResHelper m else ResRefused) else ResNotCallable)
+               else ResRefused)
+      | KClassAttr | KInstAttr => (e1, ResRefused)
       end
     end
   end.
@@ -113,6 +166,7 @@ Definition get_attribute (q : quirks) (s : shape) (n : reqname) : list effect * 
 Definition serve_call (q : quirks) (s : shape) (n : reqname) : list effect * bool :=
   match get_attribute q s n with
   | (e, ResMethod m) => (e ++ [(m, ACall)], true)
+  | (e, ResHelper m) => (e ++ [(m, AHelper)], true)
   | (e, _) => (e, false)
   end.
 
@@ -128,7 +182,8 @@ Fixpoint serve_batch (q : quirks) (s : shape) (names : list reqname) : list effe
     end
   end.
 
-(* _get_exposed_property_value / _set_exposed_property_value: lookup on the class *)
+(* _get_exposed_property_value / _set_exposed_property_value: lookup on the class (no instance hook runs);
+   the first accessor's mark decides, whichever accessor is asked for *)
 Definition serve_attr (q : quirks) (s : shape) (a : acc) (n : reqname) : list effect * bool :=
   match n with
   | NOther => ([], false)
@@ -137,8 +192,8 @@ Definition serve_attr (q : quirks) (s : shape) (a : acc) (n : reqname) : list ef
     match class_lookup s t with
     | Some m =>
       match m_kind m with
-      | KProp g st =>
-        if (match a with AGet => g | ASet => st | ACall => false end) && exposed s m
+      | KProp g st _ =>
+        if (match a with AGet => present g | ASet => present st | _ => false end) && exposed s m
         then ([(m, a)], true) else ([], false)
       | _ => ([], false)
       end
@@ -171,14 +226,43 @@ Definition meta_methods (s : shape) : list text := filter (advertised s is_metho
 Definition meta_attrs (s : shape) : list text := filter (advertised s is_prop) (class_names s).
 Definition meta_oneway (s : shape) : list text :=
   filter (advertised s (fun m => is_method m && m_oneway m)) (class_names s).
+Definition metadata := (list text * list text * list text)%type.
+Definition meta_of (s : shape) : metadata := (meta_methods s, meta_oneway s, meta_attrs s).
 
-(* ---------- well-formedness used by the metadata theorem ---------- *)
-(* no instance attribute hides a class member, every property has a getter or a setter *)
+(* ---------- the per-class metadata cache, as a history over several registered objects ---------- *)
+(* a daemon: the classes (shapes) it knows and, per registered object, the index of its class; the cache
+   maps key(class index) to the metadata computed at the first request.  key = identity models
+   "keyed by the class object"; several classes may carry the same name. *)
+Definition cache := list (nat * metadata).
+Fixpoint cache_find (k : nat) (c : cache) : option metadata :=
+  match c with
+  | [] => None
+  | (k', md) :: c' => if Nat.eqb k k' then Some md else cache_find k c'
+  end.
+Definition empty_shape := {| s_base_exposed := false; s_sub_exposed := false; s_members := [] |}.
+Definition get_metadata (key : nat -> nat) (classes : list shape) (c : cache) (cid : nat) : metadata * cache :=
+  match cache_find (key cid) c with
+  | Some md => (md, c)
+  | None => let md := meta_of (nth cid classes empty_shape) in (md, (key cid, md) :: c)
+  end.
+(* a history of get_metadata calls, each naming the class index of the object asked about *)
+Fixpoint run_metadata (key : nat -> nat) (classes : list shape) (c : cache) (hist : list nat) : list metadata :=
+  match hist with
+  | [] => []
+  | cid :: rest => let '(md, c') := get_metadata key classes c cid in md :: run_metadata key classes c' rest
+  end.
+
+(* ---------- well-formedness used by the metadata theorems ---------- *)
+(* no instance attribute hides a class member; every advertised property has a getter or a setter *)
 Definition no_shadow (s : shape) : bool :=
   forallb (fun m => is_class_member m ||
                     match class_lookup s (m_name m) with None => true | Some _ => false end) (s_members s).
 Definition props_have_accessor (s : shape) : bool :=
-  forallb (fun m => match m_kind m with KProp false false => false | _ => true end) (s_members s).
+  forallb (fun m => match m_kind m with KProp None None _ => false | _ => true end) (s_members s).
+(* the shapes on which today's code and the property's behaviour coincide: no attribute hooks, no callable
+   helper whose class carries @expose *)
+Definition plain_shape (s : shape) : bool :=
+  forallb (fun m => match m_kind m with KHook _ => false | KHelper true true => false | _ => true end) (s_members s).
 
 End Gate.
 
@@ -238,17 +322,24 @@ Definition dunder_shaped (n : text) : bool :=
 Section Spec.
 Variable is_private : text -> bool.
 
-(* explicitly exposed: @expose on the member itself (which @expose only accepts for a non-private
-   function), or @expose on the very class whose body defines it *)
+(* explicitly exposed: @expose on the member itself — the function, the property object or one of its accessor
+   functions (which @expose only accepts for a non-private function) — or @expose on the very class whose body defines it *)
 Definition explicitly_exposed (s : shape) (m : member) : Prop :=
-  (m_mark m = true /\ is_private (m_fname m) = false) \/ cls_flag s (m_in m) = true.
+  (own_requested m = true /\ is_private (m_fname m) = false) \/ cls_flag s (m_in m) = true.
+
+(* Pyro5's rule for which explicit mark makes a member served: for a property the mark must sit on its first
+   accessor (fget or fset or fdel) — @expose on the property object puts it there *)
+Definition exposed_by_rule (s : shape) (m : member) : Prop :=
+  (own_decisive m = true /\ is_private (m_fname m) = false) \/
+  (cls_flag s (m_in m) = true /\ match m_kind m with KProp None None None => False | _ => True end).
 
 (* the accessor that ran fits the request kind and the kind of member *)
 Definition acc_fits (k : rkind) (a : acc) (m : member) : Prop :=
   match a with
   | ACall => (k = RCall \/ k = RBatch) /\ is_method m = true
-  | AGet => k = RGet /\ exists st, m_kind m = KProp true st
-  | ASet => k = RSet /\ exists g, m_kind m = KProp g true
+  | AGet => k = RGet /\ exists b st d, m_kind m = KProp (Some b) st d
+  | ASet => k = RSet /\ exists g b d, m_kind m = KProp g (Some b) d
+  | AHelper | AHook => False
   end.
 
 (* what a name denotes: Python attribute resolution on the instance (calls) or on its class (attribute requests) *)
@@ -257,42 +348,90 @@ Definition denoted (s : shape) (k : rkind) (t : text) : option member :=
 
 (* the requests the property allows to be served *)
 Definition may_serve (s : shape) (k : rkind) (t : text) (m : member) (a : acc) : Prop :=
-  denoted s k t = Some m /\ is_private t = false /\ acc_fits k a m /\ explicitly_exposed s m.
+  denoted s k t = Some m /\ is_private t = false /\ acc_fits k a m /\ exposed_by_rule s m.
+
+(* the exact extent of the two open deviations of today's code *)
+(* the __call__ of a helper object ran: only for a call/batch naming, by a non-private name, an instance attribute
+   whose value is a callable instance of a class that carries @expose *)
+Definition helper_boundary (s : shape) (k : rkind) (names : list reqname) (m : member) : Prop :=
+  (k = RCall \/ k = RBatch) /\ In m (s_members s) /\ In (NStr (m_name m)) names /\
+  is_private (m_name m) = false /\ m_kind m = KHelper true true.
+(* an attribute hook ran: only the class's own __getattribute__/__getattr__, only for a call/batch, and only on
+   behalf of a requested string name that is not private *)
+Definition hook_boundary (s : shape) (k : rkind) (names : list reqname) (m : member) : Prop :=
+  (k = RCall \/ k = RBatch) /\ In m (s_members s) /\ (exists h, m_kind m = KHook h) /\
+  exists t, In (NStr t) names /\ is_private t = false.
 
 Definition reply_ok (oneway : bool) : reply := if oneway then RepNone else RepResult.
 Definition reply_refused (oneway : bool) : reply := if oneway then RepNone else RepError.
 
-Definition call_ok (s : shape) (n : reqname) : bool := snd (serve_call is_private quirks_none s n).
-Fixpoint ok_prefix (s : shape) (names : list reqname) : list reqname :=
+Definition call_ok (q : quirks) (s : shape) (n : reqname) : bool := snd (serve_call is_private q s n).
+(* the batch members that are attempted: up to and including the first one that is not served *)
+Fixpoint tried (q : quirks) (s : shape) (names : list reqname) : list reqname :=
   match names with
   | [] => []
-  | n :: rest => if call_ok s n then n :: ok_prefix s rest else []
+  | n :: rest => n :: (if call_ok q s n then tried q s rest else [])
   end.
+
+(* what the property allows to run *)
+Definition legit (s : shape) (k : rkind) (names : list reqname) (m : member) (a : acc) : Prop :=
+  In m (s_members s) /\ In (NStr (m_name m)) names /\ is_private (m_name m) = false /\
+  acc_fits k a m /\ explicitly_exposed s m.
+(* what a variant q of the code runs at most *)
+Definition allowed (q : quirks) (s : shape) (k : rkind) (names : list reqname) (m : member) (a : acc) : Prop :=
+  legit s k names m a \/
+  (q_helper_served q = true /\ a = AHelper /\ helper_boundary s k names m) \/
+  (q_hooks_run q = true /\ a = AHook /\ hook_boundary s k names m).
+(* the two repaired deviations stay repaired *)
+Definition repaired (q : quirks) : Prop := q_call_runs_getter q = false /\ q_attr_private_unchecked q = false.
 End Spec.
 
-(* ---------- recorded witnesses of the two deviations (findings/C02.json) ---------- *)
-Definition q_getter_only := {| q_call_runs_getter := true; q_attr_private_unchecked := false |}.
-Definition q_private_only := {| q_call_runs_getter := false; q_attr_private_unchecked := true |}.
+(* registered objects: objs[o] = index of the class of object o *)
+Definition class_of (objs : list nat) (o : nat) : nat := nth o objs 0.
+Definition shape_of (classes : list shape) (objs : list nat) (o : nat) : shape := nth (class_of objs o) classes empty_shape.
+
+(* ---------- recorded witnesses ---------- *)
+Definition q_getter_only := {| q_call_runs_getter := true; q_attr_private_unchecked := false; q_helper_served := false; q_hooks_run := false |}.
+Definition q_private_only := {| q_call_runs_getter := false; q_attr_private_unchecked := true; q_helper_served := false; q_hooks_run := false |}.
+Definition q_helper_only := {| q_call_runs_getter := false; q_attr_private_unchecked := false; q_helper_served := true; q_hooks_run := false |}.
+Definition q_hooks_only := {| q_call_runs_getter := false; q_attr_private_unchecked := false; q_helper_served := false; q_hooks_run := true |}.
 (* class T: @expose def ping(self) ...; @property def secret(self) ...    — request: call "secret" *)
 Definition w_ping : member :=
   {| m_id := 0; m_name := [112;105;110;103]%N; m_kind := KMethod; m_in := Sub; m_mark := true;
      m_fname := [112;105;110;103]%N; m_oneway := false |}.
 Definition w_secret : member :=
-  {| m_id := 1; m_name := [115;101;99;114;101;116]%N; m_kind := KProp true true; m_in := Sub; m_mark := false;
+  {| m_id := 1; m_name := [115;101;99;114;101;116]%N; m_kind := KProp (Some false) (Some false) None; m_in := Sub; m_mark := false;
      m_fname := [115;101;99;114;101;116]%N; m_oneway := false |}.
 Definition w1_shape := {| s_base_exposed := false; s_sub_exposed := false; s_members := [w_ping; w_secret] |}.
 Definition w1_request := {| r_kind := RCall; r_oneway := false; r_names := [NStr (m_name w_secret)] |}.
 (* class T: _hidden = expose(property(visible, ...))   — request: __getattr__ "_hidden" *)
 Definition w_hidden : member :=
-  {| m_id := 0; m_name := [95;104;105;100;100;101;110]%N; m_kind := KProp true true; m_in := Sub; m_mark := true;
+  {| m_id := 0; m_name := [95;104;105;100;100;101;110]%N; m_kind := KProp (Some false) (Some false) None; m_in := Sub; m_mark := true;
      m_fname := [118;105;115;105;98;108;101]%N; m_oneway := false |}.
 Definition w2_shape := {| s_base_exposed := false; s_sub_exposed := false; s_members := [w_hidden] |}.
 Definition w2_request := {| r_kind := RGet; r_oneway := false; r_names := [NStr (m_name w_hidden)] |}.
-(* a shape used for non-vacuity examples: exposed base class with a method, unexposed subclass overriding nothing *)
+(* a shape used for non-vacuity examples: exposed base class with a oneway method, own-marked getter-only property *)
 Definition w_run : member :=
   {| m_id := 2; m_name := [114;117;110]%N; m_kind := KMethod; m_in := Base; m_mark := false;
      m_fname := [114;117;110]%N; m_oneway := true |}.
 Definition w_value : member :=
-  {| m_id := 3; m_name := [118;97;108]%N; m_kind := KProp true false; m_in := Sub; m_mark := true;
+  {| m_id := 3; m_name := [118;97;108]%N; m_kind := KProp (Some false) None None; m_in := Sub; m_mark := true;
      m_fname := [118;97;108]%N; m_oneway := false |}.
 Definition w3_shape := {| s_base_exposed := true; s_sub_exposed := false; s_members := [w_ping; w_secret; w_run; w_value] |}.
+(* obj.tool = Tool() where Tool is an @expose'd class defining __call__   — request: call "tool" *)
+Definition w_tool : member :=
+  {| m_id := 1; m_name := [116;111;111;108]%N; m_kind := KHelper true true; m_in := Sub; m_mark := false;
+     m_fname := [116;111;111;108]%N; m_oneway := false |}.
+Definition w4_shape := {| s_base_exposed := false; s_sub_exposed := false; s_members := [w_ping; w_tool] |}.
+Definition w4_request := {| r_kind := RCall; r_oneway := false; r_names := [NStr (m_name w_tool)] |}.
+(* class T: @expose def ping ...; def __getattr__(self, name) ...   — request: call "anything" *)
+Definition w_getattr : member :=
+  {| m_id := 1; m_name := [95;95;103;101;116;97;116;116;114;95;95]%N; m_kind := KHook HGetattr; m_in := Sub; m_mark := false;
+     m_fname := [95;95;103;101;116;97;116;116;114;95;95]%N; m_oneway := false |}.
+Definition w5_shape := {| s_base_exposed := false; s_sub_exposed := false; s_members := [w_ping; w_getattr] |}.
+Definition w5_request := {| r_kind := RCall; r_oneway := false; r_names := [NStr [97;110;121]%N] |}.
+(* a property exposed only on its setter function: @property def lvl ...; @lvl.setter @expose def lvl(self, v) ... *)
+Definition w_lvl : member :=
+  {| m_id := 0; m_name := [108;118;108]%N; m_kind := KProp (Some false) (Some true) None; m_in := Sub; m_mark := false;
+     m_fname := [108;118;108]%N; m_oneway := false |}.
+Definition w6_shape := {| s_base_exposed := false; s_sub_exposed := false; s_members := [w_lvl] |}.
